@@ -7,7 +7,7 @@
     forest_positional_differs true_pred_irrelevant self_prefix_irrelevant_partial
     simple_eq_generic_partial equivalent_spellings_agree self_prefix_irrelevant_nonpositional
     dslash_is_descendant simple_eq_generic_kmp simple_eq_generic_fragments_partial
-    self_prefix_default_choice simple_eq_generic_fragments_pattern
+    self_prefix_default_choice simple_eq_generic_fragments_pattern true_pred_default_choice
 -/
 import Genshi.Model.Path
 import Genshi.Model.PathParse
@@ -648,5 +648,70 @@ example : runTest (pathTest [Frags.normPath fragsABC] true (some .simple)).1 [] 
     (Node.elem ⟨[], ['r']⟩ [] [Node.elem ⟨[], ['x']⟩ [] [Node.elem ⟨[], ['a']⟩ [] [Node.elem ⟨[], ['b']⟩ []
       [Node.elem ⟨[], ['c']⟩ [] []]]]]).flatten
     = [.none, .none, .none, .none, .bool true, .none, .none, .none, .none, .none] := by decide +kernel
+
+/-! ## An always-true predicate, with the strategies `Path.__init__` picks -/
+
+theorem all2_gSteps (ns : NsMap) (vs : Vars) (p1 p2 : LocPath) (h : All2 (StepEq ns vs) p1 p2) :
+    All2 (StepEq ns vs) (gSteps p1 false) (gSteps p2 false) := by
+  cases h with
+  | nil => simp [gSteps]; exact All2.nil
+  | @cons a b l l' hab hl =>
+    have hax : a.axis = b.axis := hab.1
+    simp only [gSteps, Bool.false_eq_true, if_false, hax]
+    split
+    · exact All2.cons (StepEq.refl ns vs dotSlash) (All2.cons hab hl)
+    · exact All2.cons hab hl
+
+theorem insertPred_preds (p : LocPath) (i k : Nat) (t : Expr) (hi : i < p.length) :
+    ∃ s ∈ insertPred p i k t, s.preds ≠ [] := by
+  refine ⟨(insertPred p i k t)[i]'(by simp [insertPred]; exact hi), List.getElem_mem _, ?_⟩
+  simp [insertPred]
+
+/-- **true_pred_irrelevant with the strategies `Path.__init__` picks.**  Let `p` be the path
+    of a fragment list with two or more steps and `t` an always-true, non-positional
+    predicate.  `Path.__init__` hands `p` to SimplePathStrategy and `p` with `[t]` inserted
+    anywhere (the path now has a predicate) to GenericStrategy — and the two matchers report
+    the same at every event: `true_pred_irrelevant` (`gStep_congr`) carried over the strategy
+    choice by `simple_eq_generic_fragments_partial`. -/
+theorem true_pred_default_choice (frags : List Frag) (hok : Frags.FragsOk frags)
+    (h2 : 2 ≤ (Frags.normPath frags).length)
+    (ns : NsMap) (vs : Vars) (t : Expr) (ht : AlwaysTrue ns vs t) (i k : Nat) (hi : i < (Frags.normPath frags).length)
+    (skip : Bool) (tag : QName) (attrs : AttrList) (kids : List Node)
+    (hcl : (Node.elem tag attrs kids).clean = true)
+    (hn : AllNodes (NodeFor (Frags.normPath frags) ns vs) (.elem tag attrs kids)) :
+    (chooseStrategy (insertPred (Frags.normPath frags) i k t) = some .generic ∧
+     chooseStrategy (Frags.normPath frags) = some .simple) ∧
+    traceCaller (pathTest [insertPred (Frags.normPath frags) i k t] false).1 ns vs skip
+        (pathTest [insertPred (Frags.normPath frags) i k t] false).2 (Node.elem tag attrs kids).flatten
+      = traceCaller (pathTest [Frags.normPath frags] false).1 ns vs skip
+        (pathTest [Frags.normPath frags] false).2 (Node.elem tag attrs kids).flatten := by
+  have ho : strategyOrder = [.single, .simple, .generic] := by decide
+  have hlen : (insertPred (Frags.normPath frags) i k t).length = (Frags.normPath frags).length := by
+    simp [insertPred]
+  have hc1 : chooseStrategy (insertPred (Frags.normPath frags) i k t) = some .generic := by
+    have h1 : singleSupports (insertPred (Frags.normPath frags) i k t) = false := by
+      unfold singleSupports; rw [hlen]; exact beq_false_of_ne (by omega)
+    have hs : simpleSupports (insertPred (Frags.normPath frags) i k t) = false := by
+      obtain ⟨s, hs, hp⟩ := insertPred_preds (Frags.normPath frags) i k t hi
+      cases hq : insertPred (Frags.normPath frags) i k t with
+      | nil => rfl
+      | cons s0 rest =>
+        rw [hq] at hs
+        simp only [simpleSupports, Bool.and_eq_false_iff]
+        right
+        rw [List.all_eq_false]
+        refine ⟨s, hs, ?_⟩
+        have : s.preds.isEmpty = false := by cases hsp : s.preds <;> simp_all
+        simp [this]
+    simp [chooseStrategy, ho, List.find?, Strategy.supports, h1, hs]
+  have hc2 := Frags.chooses_simple frags hok h2
+  refine ⟨⟨hc1, hc2⟩, ?_⟩
+  have e2 := simple_eq_generic_fragments_partial frags hok ns vs skip tag attrs kids hcl hn
+  have hstep : gStep (gSteps (insertPred (Frags.normPath frags) i k t) false) ns vs
+      = gStep (gSteps (Frags.normPath frags) false) ns vs := by
+    funext st e
+    exact gStep_congr ns vs _ _ (all2_gSteps ns vs _ _ (all2_insert ns vs t ht k _ i)) st e
+  simp only [pathTest, List.map_cons, List.map_nil, hc1, hc2, Option.getD_some, mkMatcher, traceCaller] at e2 ⊢
+  rw [e2, runTest_generic, runTest_generic, hstep]
 
 end Genshi.Props.C17
